@@ -33,6 +33,9 @@ def _claim_numbers(enc, cl):
         for eq in cl["eqs"]:
             yield from enc.numbers_poly(eq["lhs"])
             yield from enc.numbers_poly(eq["rhsp"])
+    if "goals" in cl:
+        for g in cl["goals"]:
+            yield from enc.numbers_poly(g["poly"])
     if "thr" in cl:
         yield from E.as_dual(cl["thr"])
     if "vals" in cl:
@@ -59,6 +62,10 @@ def _enc_claim(enc, cl, D):
     if cl["t"] == "rec":
         out["rhs"] = [{"c": E.enc_s(c, D), "m": enc.poly(m, D)} for c, m in cl["rhs"]]
         out["k"] = E.enc_s(cl["k"], D)
+    if "goals" in cl:
+        out["goals"] = [{"kind": g["kind"], "k": g.get("k", 0), "poly": enc.poly(g["poly"], D)} for g in cl["goals"]]
+    if cl["t"] == "inv":
+        out["terms"] = [{"c": E.enc_z(c), "e": [int(x) for x in e]} for c, e in cl["terms"]]
     if cl["t"] == "recpts":
         out["eqs"] = [{"lhs": enc.poly(eq["lhs"], D), "rhsp": enc.poly(eq["rhsp"], D)} for eq in cl["eqs"]]
     if "thr" in cl:
